@@ -161,12 +161,15 @@ package handler
 //@   ensures [admitted-runs-handler-on-recording-writer] !rejected ==> calls(next.ServeHTTP) == 1 && arg(next.ServeHTTP, 1) == r && unbox(arg(next.ServeHTTP, 0), ptr(response.WithCodeResponseWriter)).Writer == w && calls(w.WriteHeader) == 0
 //@   ensures [one-outcome-after-handler] !rejected ==> calls(Accept) + calls(Reject) == 1 && before(ServeHTTP, Accept) && before(ServeHTTP, Reject)
 //@   ensures [below-500-is-success] !rejected ==> (calls(Accept) == 1) == (local(cw).Code < 500)
-//@   panic-ensures [outcome-recorded-on-panic] calls(Accept) + calls(Reject) == 1
+// a panicking handler is a FAILURE for the breaker, whatever status it had (not) written by then
+//@   replay handler_breaker_panic
+//@   panic-ensures [panic-recorded-as-failure] calls(Reject) == 1 && calls(Accept) == 0
 //@ func BreakerHandler$1$1$1
 //@   prop C01
 //@   inline always
 //@   opaque Sprintf, StatusText
-//@   ensures [below-500-accepts] cw.Code < 500 ==> calls(promise.Accept) == 1 && calls(Reject) == 0
+//@   ensures [one-outcome] calls(promise.Accept) + calls(promise.Reject) == 1
+//@   ensures [accept-only-below-500] calls(Accept) == 1 ==> cw.Code < 500
 //@   ensures [from-500-rejects] cw.Code >= 500 ==> calls(promise.Reject) == 1 && calls(Accept) == 0
 // The breaker of a route is named after method and path.
 //@ func BreakerHandler
